@@ -198,7 +198,7 @@ func main() {
 	_ = client.PostM(ctx, &api.PostMReq{A: "abc", F: ht.MultipartFile{Name: "f.txt", File: strings.NewReader("file-content")}})
 	grab("postM")
 
-	var evals int64
+	var evals, skipped int64
 	run := func(v valid, fs []fault, hOutcome string) {
 		evals++
 		called = 0
@@ -212,6 +212,11 @@ func main() {
 		stage := "none"
 		for _, f := range fs {
 			r, body = f.apply(r, body, append([]byte(nil), v.body...))
+			if r == nil {
+				evals--
+				skipped++
+				return // the fault cannot be expressed as a request net/http would deliver
+			}
 			names = append(names, f.name)
 			if stageOrder[f.stage] < stageOrder[stage] {
 				stage = f.stage
@@ -441,6 +446,89 @@ func main() {
 			}
 			bodyMut("nil body", nilStage, func(r *http.Request, raw []byte) io.Reader { r.ContentLength = 0; return nil })
 		}
+		// ---- text sweeps: every string up to a length over a hostile alphabet, at every textual
+		// position of the request (consistency oracle: no panic, one response, 4xx <=> handler not
+		// invoked, no 5xx for a request fault).  The hand-written menu above carries one malformed
+		// escape per position; a seeded out-of-range read needed "valid escape, then a truncated one".
+		var sweeps []fault
+		sweepLen := 4
+		if thorough {
+			sweepLen = 5
+		}
+		words := func(alpha string, n int) []string {
+			out := []string{""}
+			cur := []string{""}
+			for l := 0; l < n; l++ {
+				var next []string
+				for _, c := range cur {
+					for i := 0; i < len(alpha); i++ {
+						next = append(next, c+alpha[i:i+1])
+					}
+				}
+				out = append(out, next...)
+				cur = next
+			}
+			return out
+		}
+		sweep := func(pos, alpha string, n int, f func(r *http.Request, w string) bool) {
+			for _, w := range words(alpha, n) {
+				w := w
+				sweeps = append(sweeps, fault{pos, fmt.Sprintf("sweep %s %q", pos, w), "either", func(r *http.Request, body io.Reader, raw []byte) (*http.Request, io.Reader) {
+					if !f(r, w) {
+						return nil, body
+					}
+					return r, body
+				}})
+			}
+		}
+		const esc = "%41z;= \"+,"
+		if v.name == "postV" {
+			sweep("cookie", esc, sweepLen, func(r *http.Request, w string) bool { r.Header.Set("Cookie", "ck="+w); return true })
+			sweep("cookie-pair", "ck=;% 4\"", sweepLen+1, func(r *http.Request, w string) bool { r.Header.Set("Cookie", w); return true })
+			sweep("rawquery-q", esc+"&", sweepLen, func(r *http.Request, w string) bool { r.URL.RawQuery = "q=" + w + "&oq=1"; return true })
+			sweep("rawquery-oq", "%3120-+ e.", sweepLen, func(r *http.Request, w string) bool { r.URL.RawQuery = "q=a&oq=" + w; return true })
+			sweep("rawquery", "qo=&%4;a", sweepLen+1, func(r *http.Request, w string) bool { r.URL.RawQuery = w; return true })
+			sweep("rawpath", "%3721/.z", sweepLen+1, func(r *http.Request, w string) bool {
+				// only what net/http would hand to a handler: the request target must parse
+				u, err := url.ParseRequestURI("/v/" + w)
+				if err != nil {
+					return false
+				}
+				r.URL.Path, r.URL.RawPath = u.Path, u.RawPath
+				return true
+			})
+			sweep("header", "h \t\xff,;\"%", sweepLen, func(r *http.Request, w string) bool { r.Header.Set("X-H", w); return true })
+			sweep("credential", "ok ,%\x00", sweepLen, func(r *http.Request, w string) bool { r.Header.Set("X-Key", w); return true })
+		}
+		if len(v.body) > 0 {
+			ct := v.req.Header.Get("Content-Type")
+			if i := strings.IndexByte(ct, ';'); i >= 0 {
+				ct = ct[:i]
+			}
+			sweep("content-type-suffix", "; =\"/,ac*", sweepLen, func(r *http.Request, w string) bool { r.Header.Set("Content-Type", ct+w); return true })
+			sweep("content-type", "aj/;+* ", sweepLen, func(r *http.Request, w string) bool { r.Header.Set("Content-Type", w); return true })
+		}
+		bodySweep := func(pos, alpha string, n int) {
+			for _, w := range words(alpha, n) {
+				w := w
+				sweeps = append(sweeps, fault{pos, fmt.Sprintf("sweep %s %q", pos, w), "either", func(r *http.Request, body io.Reader, raw []byte) (*http.Request, io.Reader) {
+					r.ContentLength = int64(len(w))
+					return r, strings.NewReader(w)
+				}})
+			}
+		}
+		switch v.name {
+		case "putO-json":
+			bodySweep("json-body", "[]1,\" {}-.e\\nu", sweepLen+1)
+		case "postF":
+			bodySweep("form-body", "ab=&%41+;", sweepLen+1)
+		case "putO-text":
+			bodySweep("text-body", "a\xff\x00\n", sweepLen)
+		}
+		for _, f := range sweeps {
+			run(v, []fault{f}, "ok")
+		}
+		drv.Stat("sweep_requests_for_"+v.name, int64(len(sweeps)))
 		run(v, nil, "ok")
 		for _, ho := range []string{"error", "default", "notimpl"} {
 			run(v, nil, ho)
@@ -470,6 +558,7 @@ func main() {
 	drv.Eval(evals)
 	drv.NontrivialN(evals)
 	drv.Stat("requests", evals)
+	drv.Stat("sweep_words_not_deliverable_by_net_http", skipped)
 	drv.Sample(map[string]any{"valid_request": "postV", "faults": []string{"truncate@17"}, "expected": "400/415, handler not invoked"})
 	drv.Sample(map[string]any{"valid_request": "postV", "faults": []string{"credential rejected", "json 1.5 -> \"x\""}, "expected": "401 (earliest stage), handler not invoked"})
 	drv.Flush()
